@@ -985,7 +985,11 @@ class FileWeaver:
                 except WeaveError:
                     self._layout_changed.add(key)
             if a is not None:
-                self.baseline_out.setdefault(key, {})[pstr] = [t.text for t in toks[a:b + 1] if t.sig()][:7]
+                want = [t.text for t in toks[a:b + 1] if t.sig()][:7]
+                fo, fc = self._cur_fn_open, match_close(toks, self._cur_fn_open)
+                sig = [q for q in range(fo + 1, fc) if toks[q].sig()]
+                hits = [sig[i] for i in range(len(sig) - len(want) + 1) if all(toks[sig[i + j]].text == want[j] for j in range(len(want)))]
+                self.baseline_out.setdefault(key, {})[pstr] = {"tokens": want, "occ": hits.index(a) if a in hits else 0, "total": len(hits)}
             else:
                 a, b = self.relocate(lo, hi, key, pstr, c)
             if where == "before":
@@ -1031,15 +1035,18 @@ class FileWeaver:
         """statement layout of `key` differs from the contract's: find the anchored statement
         by the first tokens it had on the tree the contract was written for"""
         toks = self.toks
-        want = (BASELINE.get(self.relpath, {}).get(key, {}) or {}).get(pstr)
-        if not want:
+        rec = (BASELINE.get(self.relpath, {}).get(key, {}) or {}).get(pstr)
+        if not rec:
             raise WeaveError("lost anchor: hint %s in %s: statement layout changed and no baseline for path %s" % (c.cid, key, pstr))
-        sig = [q for q in range(lo + 1, hi) if toks[q].sig()]
+        want = rec["tokens"]
+        fo, fc = self._cur_fn_open, match_close(toks, self._cur_fn_open)
+        sig = [q for q in range(fo + 1, fc) if toks[q].sig()]
         hits = [sig[i] for i in range(len(sig) - len(want) + 1) if all(toks[sig[i + j]].text == want[j] for j in range(len(want)))]
-        if len(hits) != 1:
+        if len(hits) != rec["total"] or not hits:
             raise WeaveError("lost anchor: hint %s in %s: anchored statement (%s) %s after layout change" % (
                 c.cid, key, " ".join(want), "not found" if not hits else "ambiguous"))
-        start = hits[0]
+        start = hits[rec["occ"]]
+        lo, hi = fo, fc
         # enclosing block
         depth = 0
         q = start - 1
@@ -1145,6 +1152,7 @@ class FileWeaver:
             return
         toks = self.toks
         for part in spec.stmts.split():
+            pth = ""
             if ":" in part:
                 pth, cnt = part.split(":")
                 path = [int(x) for x in pth.split("/")]
